@@ -11,7 +11,7 @@ FUNCS_DEFAULT = [("dfn", "1"), ("dfn1", "0"), ("dg", "2")]
 NARGS = 3
 VALKEYS = ["s0", "s1", "num", "none", "k3", "k6", "lst", "dct", "df", "arr", "k3b", "true", "flt", "part",
            "part2", "arr6", "df6", "exc", "exc", "part3"]
-OVERRIDES = [None, None, None, "ovr/shared", "ovr/other"]
+OVERRIDES = [None, None, None, "ovr/shared", "ovr/other", "ovr/k#1"]  # (a key may contain the character that separates key and version)
 META_KEYS = ["log", "k2"]
 
 
